@@ -306,8 +306,10 @@ def _corpus(ctx):
             continue
         fmt = mod.__name__.split(".")[-1]
         size = p.stat().st_size
-        limit = 60_000 if fmt in SLOW_FORMATS else 400_000
-        if size > (limit if not ctx.thorough else limit * 3):
+        # Molden/MKL/FCHK loads of the big-basis fixtures take minutes each (the overlap matrix is recomputed for
+        # every repair attempt): they stay capped by size in both tiers
+        limit = 60_000 if fmt in SLOW_FORMATS else (400_000 if not ctx.thorough else 1_200_000)
+        if size > limit:
             continue
         files.append((p.name, fmt, hasattr(mod, "load_many"), size))
     return files
@@ -318,7 +320,7 @@ def _tasks(ctx):
     files = _corpus(ctx)
     tasks = []
     kinds = ["delete", "dup", "swap", "subst", "subst", "overflow", "overflow", "inflate", "trunc-byte"]
-    per_file = ctx.n(14, 120) * (3 if ctx.escalated else 1)
+    per_file = ctx.n(14, 60) * (3 if ctx.escalated else 1)
     for fname, fmt, many, size in files:
         nl = sum(1 for _ in open(REPO / "iodata" / "test" / "data" / fname, errors="replace"))
         cap = per_file // 2 if fmt in SLOW_FORMATS else per_file
